@@ -213,3 +213,12 @@ pub open spec fn verify_spec<CS: BbsCiphersuite>(pk: G2Projective, sig: BBSplusS
     core_verify_spec::<CS>(pk, sig, msgs_to_scalars_spec::<CS>(msgs, CS::API_ID@), p1_spec::<CS>(),
         generators_spec::<CS>((msgs.len() + 1) as nat, CS::API_ID@), header, CS::API_ID@)
 }
+
+// ---- update_signature (zkryptium extension): B' = A*(SK+e) - H_i*old + H_i*new;  A' = B'/(SK+e) ------------
+pub open spec fn update_a_spec<CS: BbsCiphersuite>(sig: BBSplusSignature, sk: Scalar, old_msg: Seq<u8>, new_msg: Seq<u8>, i: int, n: nat) -> G1Projective {
+    let h_i = generators_spec::<CS>(n + 1, CS::API_ID@)[i + 1];
+    let sk_e = s_add(sk, sig.e);
+    let old_s = msg_scalar_spec::<CS>(old_msg, CS::API_ID@);
+    let new_s = msg_scalar_spec::<CS>(new_msg, CS::API_ID@);
+    g1_mul(g1_add(g1_add(g1_mul(sig.A, sk_e), g1_mul(g1_neg(h_i), old_s)), g1_mul(h_i, new_s)), s_inv(sk_e))
+}
